@@ -131,7 +131,11 @@ func (r *Runner) Run() int {
 		for k, v := range r.Overrides {
 			params[k] = v
 		}
-		sp := &sym.HarnessSpec{Name: h.Func, Fn: fn, Params: params, Setup: h.Setup, Solver: h.Solver}
+		hs := h.Solver
+		if o := os.Getenv("VERIF_HSOLVER"); o != "" && hs != "" {
+			hs = o
+		}
+		sp := &sym.HarnessSpec{Name: h.Func, Fn: fn, Params: params, Setup: h.Setup, Solver: hs}
 		specs = append(specs, sp)
 		specHarness[sp] = h
 	}
@@ -416,6 +420,9 @@ func (r *Runner) Run() int {
 	fmt.Printf("check %s tier=%s paths=%d completed=%d solver_calls=%d (sat %d unsat %d unknown %d err %d) cross=%d disagree=%d solver_s=%.1f wall=%.1fs inconclusive=%d violations=%d\n",
 		c.ID, r.Tier, totalPaths, totalCompleted, stats.Queries, stats.SatN, stats.UnsatN, stats.UnknownN, stats.Errors, stats.CrossChecked, stats.Disagreements,
 		float64(stats.SolverNS)/1e9, wall.Seconds(), len(inconclusive), violN)
+	if len(sym.LIAFallbacks) > 0 {
+		fmt.Printf("lia: %d queries decided over the integers; fallbacks to bit-vectors: %v\n", stats.LIA, sym.LIAFallbacks)
+	}
 	if exit == 1 {
 		return 1
 	}
